@@ -465,6 +465,25 @@ func runCheck(id, tier, replay string) int {
 			}
 		}
 	}
+	// race reports that no test attributed to a case
+	if c.Race && len(violations) == 0 && replay == "" {
+		ms, _ := filepath.Glob(filepath.Join(work, "race-*"))
+		for _, f := range ms {
+			b, _ := os.ReadFile(f)
+			if len(b) > 0 {
+				dir := filepath.Join(root, "replays", id)
+				os.MkdirAll(dir, 0o755)
+				dst := filepath.Join(dir, fmt.Sprintf("race-%s-seed%d-%s.txt", tier, seed, filepath.Base(f)))
+				os.WriteFile(dst, b, 0o644)
+				msg := string(b)
+				if len(msg) > 1500 {
+					msg = msg[:1500]
+				}
+				violations = append(violations, violation{Test: "race-detector", Msg: "data race reported outside any attributed case:\n" + msg, Replay: dst})
+				break
+			}
+		}
+	}
 	// A shard killed by an unrecoverable runtime error: re-run it with case tracing;
 	// the last traced case is the crashing input.
 	if crashed && len(violations) == 0 && replay == "" {
